@@ -158,6 +158,7 @@ def main(tier):
     check_combine(rep)
     import bounds
     bounds.check(rep, {'mem_zero'}, 'MEM', 2)
+    bounds.check_len_width(rep, {'mem_zero'}, 'MEM', 4)
     return rep.finish()
 
 
